@@ -10,6 +10,7 @@ import M3d.Lemmas.CollideRect2
 import M3d.Lemmas.CollideTriTri
 import M3d.Lemmas.CollideSegQuery
 import M3d.Lemmas.CollideProfBall
+import M3d.Lemmas.CollideScale
 import Mathlib.Algebra.Order.Field.Rat
 /-!
 # C07 — Colliders report consistent ray and ball collisions
@@ -1065,6 +1066,191 @@ example :
     meshRect2 (fun x : ℚ => x) (1/100000000)
       (.node (.leaf (⟨0, 0⟩, ⟨1/4, 0⟩)) (.leaf (⟨1/4, 0⟩, ⟨1/2, 0⟩))) ⟨1/10, -1/20⟩ ⟨3/20, 1/20⟩ = true := by
   refine ⟨?_, ?_, ?_, ?_, ?_, ?_, ?_⟩ <;> decide +kernel
+
+/-! ## (7) the enumeration is a function of (collider, ray) only; rays with a scaled direction -/
+
+/-- **`callbacks_cannot_influence`** — *the enumeration is a function of the collider and the ray only*.  Run
+`c.RayCollisions(r, f)` with an arbitrary side-effecting callback: `f c h s` updates the user's state `s` at the
+collision `h` and has the collider `c` itself in hand, so it may make any further queries against it before it returns
+(secondary rays from the hit point, `FirstRayCollision`, ball queries, the same ray again); next to it the harness's
+recorder notes the collision and the answers `q c h` of the nested queries.  Then the returned count is the count of the
+passive enumeration, the collisions handed to the callback are exactly — same values, same order — those handed to a
+passive callback, every nested query was answered as the same query is answered outside of the enumeration, and the
+user's state is the fold of `f` over the passive enumeration.  (A collider with a scratch buffer shared between queries
+— seeded change C07-9 — is not such a function: the `reent…`, `profrx`, `joinrx` correspondence kinds compare the
+real code with this.) -/
+theorem callbacks_cannot_influence {R H σ T : Type} (c : Collider R H) (r : R)
+    (f : Collider R H → H → σ → σ) (q : Collider R H → H → List T) (s0 : σ) :
+    let run := runCallbacks c r
+      (fun h (s : σ × List H × List T) => (f c h s.1, recordActive c q h s.2)) (s0, [], [])
+    run.1 = (c.ray r true).1 ∧
+    run.2.2.1 = (c.ray r true).2 ∧
+    run.2.2.2 = (c.ray r true).2.flatMap (q c) ∧
+    run.2.1 = (c.ray r true).2.foldl (fun s h => f c h s) s0 := by
+  intro run
+  have h : run.2 = ((c.ray r true).2.foldl (fun s h => f c h s) s0,
+      (c.ray r true).2.foldl (fun s h => recordActive c q h s) ([], [])) :=
+    foldl_prod (fun h s => f c h s) (fun h s => recordActive c q h s) (c.ray r true).2 (s0, [], [])
+  rw [foldl_recordActive] at h
+  refine ⟨rfl, ?_, ?_, ?_⟩
+  · rw [h]; simp
+  · rw [h]; simp
+  · rw [h]
+
+/-- **`reent_obs`**: the comparison the driver evaluates on a re-entrant observation (`reentOk` / `reentVerdict`:
+count with the active callback = number of its calls = count with a passive callback; the calls are the passive calls;
+the nested answers are the outside answers) succeeds for every collider whose count is the number of its callbacks
+(first clause of the contract) — whatever the callback does.  A `viol:` line of the `reent` kinds is therefore a
+violation: the real collider is not a function of the ray. -/
+theorem reent_obs {R H σ T : Type} [BEq H] [LawfulBEq H] [BEq T] [LawfulBEq T] (c : Collider R H) (r : R)
+    (hc : (c.ray r true).1 = (c.ray r true).2.length)
+    (f : Collider R H → H → σ → σ) (q : Collider R H → H → List T) (s0 : σ) :
+    let run := runCallbacks c r
+      (fun h (s : σ × List H × List T) => (f c h s.1, recordActive c q h s.2)) (s0, [], [])
+    reentOk (c.ray r true).1 (c.ray r true).2 run.1 run.2.2.1 run.2.2.2 ((c.ray r true).2.flatMap (q c)) = true ∧
+    reentVerdict (c.ray r true).1 (c.ray r true).2 run.1 run.2.2.1 run.2.2.2 ((c.ray r true).2.flatMap (q c)) = "ok" := by
+  intro run
+  obtain ⟨h1, h2, h3, _⟩ := callbacks_cannot_influence c r f q s0
+  have e1 : run.1 = (c.ray r true).1 := h1
+  have e2 : run.2.2.1 = (c.ray r true).2 := h2
+  have e3 : run.2.2.2 = (c.ray r true).2.flatMap (q c) := h3
+  rw [e1, e2, e3]
+  unfold reentOk reentVerdict
+  simp [hc]
+
+/-- the comparison rejects what the property forbids: a collision replaced, a collision lost, a nested query answered
+differently -/
+example :
+    reentVerdict 2 ["a", "b"] 2 ["a", "b"] ["x"] ["x"] = "ok" ∧
+    reentVerdict 2 ["a", "b"] 2 ["a", "c"] ["x"] ["x"] = "enumeration-differs-with-active-callback" ∧
+    reentVerdict 2 ["a", "b"] 1 ["a"] ["x"] ["x"] = "count-differs-with-active-callback" ∧
+    reentVerdict 2 ["a", "b"] 2 ["a"] ["x"] ["x"] = "count-vs-callbacks" ∧
+    reentVerdict 2 ["a", "b"] 2 ["a", "b"] ["x"] ["y"] = "nested-query-differs" := by
+  refine ⟨?_, ?_, ?_, ?_, ?_⟩ <;> decide
+
+/-- **`ray_scale_invariant_segment2d`** (2-D `Segment.rayCollision / RayCollisions / FirstRayCollision`): for every
+`k > 0` the ray `(o, k·d)` is reported the collisions of the ray `(o, d)` with every parameter divided by `k` and the
+same normal — the same points —, and the same count; in particular the near-parallel rejection
+`|det| < 1e-8·|s1 - s0|·|d|` does not depend on the length of the direction vector (an absolute threshold — seeded
+change C07-7 — does).  No hypothesis on `eps`, the segment or the ray. -/
+theorem ray_scale_invariant_segment2d {sqrtF : K → K} (hs : SqrtOK sqrtF) (eps : K) (s0 s1 : V2 K) :
+    (∀ o d k, 0 < k →
+      seg2Ray sqrtF eps s0 s1 o (d.scale k) = (seg2Ray sqrtF eps s0 s1 o d).map (fun p => (p.1, p.2 / k)) ∧
+      seg2Hits sqrtF eps s0 s1 o (d.scale k) = (seg2Hits sqrtF eps s0 s1 o d).map (Hit2.scaleT k)) ∧
+    ScaleCov V2.scale Hit2.scaleT (seg2Collider sqrtF eps s0 s1) :=
+  ⟨fun o d _ hk => ⟨seg2Ray_scale hs eps s0 s1 o d hk, seg2Hits_scale hs eps s0 s1 o d hk⟩,
+   seg2Collider_scaleCov hs eps s0 s1⟩
+
+/-- a ray across the segment `(0,0)–(1,0)`: parameter 1 with direction `(0,-1)`, parameter `2^30` with direction
+`(0,-2^-30)`, parameter `2^-30` with direction `(0,-2^30)` (`sq` is a square root on the values that occur) -/
+example :
+    let sq : ℚ → ℚ := fun x => if x = 1152921504606846976 then 1073741824
+      else if x = 1/1152921504606846976 then 1/1073741824 else x
+    (seg2Hits sq (1/100000000) ⟨0, 0⟩ ⟨1, 0⟩ ⟨1/2, 1⟩ ⟨0, -1⟩).map Hit2.t = [1] ∧
+    (seg2Hits sq (1/100000000) ⟨0, 0⟩ ⟨1, 0⟩ ⟨1/2, 1⟩ ⟨0, -1/1073741824⟩).map Hit2.t = [1073741824] ∧
+    (seg2Hits sq (1/100000000) ⟨0, 0⟩ ⟨1, 0⟩ ⟨1/2, 1⟩ ⟨0, -1073741824⟩).map Hit2.t = [1/1073741824] := by
+  refine ⟨?_, ?_, ?_⟩ <;> decide +kernel
+
+/-- **`ray_scale_invariant_wrappers`**: scale covariance is inherited by `JoinedCollider` / `joinedMultiCollider` (mesh
+colliders; the bounds test `admits` must not depend on the length of the direction — the slab test does not) and by
+`transformedCollider` (the inner ray of `(o, k·d)` is the inner ray of `(o, d)` with `k` times the direction — the
+transform is affine — and the mapped collision keeps its parameter); a `FirstRayCollision` implemented as the minimum
+over the callbacks commutes with the scaling. -/
+theorem ray_scale_invariant_wrappers {V H : Type} (scaleDir : V → K → V) (sc : K → H → H) (tOf : H → K)
+    (hlt : ∀ k, 0 < k → ∀ a b, tOf (sc k a) < tOf (sc k b) ↔ tOf a < tOf b) :
+    (∀ (admits : V × V → Bool), (∀ o d k, 0 < k → admits (o, scaleDir d k) = admits (o, d)) →
+      ∀ parts : List (Collider (V × V) H), (∀ c ∈ parts, ScaleCov scaleDir sc c) →
+        ScaleCov scaleDir sc (joined tOf admits parts)) ∧
+    (∀ {V' H' : Type} (scaleDir' : V' → K → V') (sc' : K → H' → H') (inner : Collider (V × V) H)
+      (innerRay : V' × V' → V × V) (outer : H → H'),
+      (∀ o d k, 0 < k → innerRay (o, scaleDir' d k) = ((innerRay (o, d)).1, scaleDir (innerRay (o, d)).2 k)) →
+      (∀ k h, outer (sc k h) = sc' k (outer h)) → ScaleCov scaleDir sc inner →
+        ScaleCov scaleDir' sc' (transformed inner innerRay outer)) ∧
+    (∀ k, 0 < k → ∀ calls : List H, minFirst tOf (calls.map (sc k)) none = (minFirst tOf calls none).map (sc k)) :=
+  ⟨fun admits hadm parts hp => joined_scaleCov scaleDir sc tOf hlt admits hadm parts hp,
+   fun scaleDir' sc' inner innerRay outer hray hout hin =>
+     transformed_scaleCov scaleDir scaleDir' sc sc' inner innerRay outer hray hout hin,
+   fun k hk calls => minFirst_map tOf (sc k) (hlt k hk) calls none⟩
+
+/-- **`ray_scale_invariant_profile`** (`profileCollider.RayCollisions / FirstRayCollision`: vertical, flat and general
+case, the closure `inside2d`, the side filter, the two faces): scale covariant whenever the 2-D collider is — in
+particular over a 2-D mesh collider (every segment's callbacks, any hierarchy with an always-admitting bounds test:
+`segs.flatMap seg2Hits`).  A nearly vertical ray is a ray whose 2-D projection has a tiny direction: the 2-D collider
+must report the same crossings as for the normalised projection. -/
+theorem ray_scale_invariant_profile {sqrtF : K → K} (hs : SqrtOK sqrtF) (eps : K) (solid2 : V2 K → Bool)
+    (minZ maxZ : K) :
+    (∀ ray2 : V2 K → V2 K → List (Hit2 K),
+      (∀ o d k, 0 < k → ray2 o (d.scale k) = (ray2 o d).map (Hit2.scaleT k)) →
+        ScaleCov V3.scale Hit.scaleT (profileCollider ray2 solid2 minZ maxZ)) ∧
+    (∀ segs : List (V2 K × V2 K),
+      ScaleCov V3.scale Hit.scaleT
+        (profileCollider (fun o2 d2 => segs.flatMap fun s => seg2Hits sqrtF eps s.1 s.2 o2 d2) solid2 minZ maxZ)) := by
+  refine ⟨fun ray2 hcov => profileCollider_scaleCov ray2 hcov solid2 minZ maxZ, fun segs => ?_⟩
+  apply profileCollider_scaleCov
+  intro o d k hk
+  induction segs with
+  | nil => rfl
+  | cons s rest ih =>
+    simp only [List.flatMap_cons, List.map_append, seg2Hits_scale hs eps s.1 s.2 o d hk]
+    rw [ih]
+
+/-- **`ray_scale_invariant_primitives`** (`Sphere/Circle.RayCollisions`, `Triangle.rayCollision/RayCollisions/
+FirstRayCollision` with its near-parallel test on the *normalised* direction, `castPlane`, `castCircle`): the ray
+`(o, k·d)`, `k > 0`, is reported the collisions of `(o, d)` with the parameters divided by `k`, same normals, same count
+and same barycentric coordinates; hence (`ray_scale_invariant_wrappers`) also every mesh collider over triangles. -/
+theorem ray_scale_invariant_primitives {sqrtF : K → K} (hs : SqrtOK sqrtF) (eps : K) :
+    (∀ center radius, ScaleCov V3.scale Hit.scaleT (sphereCollider sqrtF center radius)) ∧
+    (∀ a b c, ScaleCov V3.scale Hit.scaleT (triCollider sqrtF eps a b c)) ∧
+    (∀ a b c o d k, 0 < k → triRay sqrtF eps a b c o (d.scale k) =
+        (triRay sqrtF eps a b c o d).map (fun s => ⟨s.u, s.v, s.t / k⟩)) ∧
+    (∀ normal bias o d k, 0 < k → castPlane sqrtF eps normal bias o (d.scale k) =
+        (castPlane sqrtF eps normal bias o d).map (· / k)) ∧
+    (∀ normal center radius o d k, 0 < k → castCircle sqrtF eps normal center radius o (d.scale k) =
+        (castCircle sqrtF eps normal center radius o d).map (Hit.scaleT k)) ∧
+    (∀ (tris : List (V3 K × V3 K × V3 K)),
+      ScaleCov V3.scale Hit.scaleT
+        (joined Hit.t (fun _ => true) (tris.map fun t => triCollider sqrtF eps t.1 t.2.1 t.2.2))) := by
+  refine ⟨fun center radius => sphereCollider_scaleCov hs center radius,
+    fun a b c => triCollider_scaleCov hs eps a b c,
+    fun a b c o d k hk => triRay_scale hs eps a b c o d hk,
+    fun normal bias o d k hk => castPlane_scale hs eps normal bias o d hk,
+    fun normal center radius o d k hk => castCircle_scale hs eps normal center radius o d hk,
+    fun tris => ?_⟩
+  apply joined_scaleCov V3.scale Hit.scaleT Hit.t (fun k hk a b => hit_scaleT_lt hk a b)
+  · intro _ _ _ _; rfl
+  · intro c hc
+    obtain ⟨t, _, rfl⟩ := List.mem_map.1 hc
+    exact triCollider_scaleCov hs eps t.1 t.2.1 t.2.2
+
+/-- **`ray_scale_invariant_shapes`** (`rayCollisionWithBounds` + `Rect.RayCollisions/FirstRayCollision/normalAt`,
+`Cylinder.RayCollisions` — quadratic for the side, the two discs — and `Capsule.RayCollisions` — end spheres with the
+hemisphere filter, side, sort, phantom removal, `Contains(origin)`): scale covariant; the slab loop for `k·d` leaves
+through the same miss exit or returns the bounds of `d` divided by `k`. -/
+theorem ray_scale_invariant_shapes {sqrtF : K → K} (hs : SqrtOK sqrtF) (eps : K) :
+    (∀ lo hi : V3 K, ScaleCov V3.scale Hit.scaleT (rectCollider lo hi)) ∧
+    (∀ (lo hi o d : V3 K) (k : K), 0 < k → rectTs lo hi o (d.scale k) = (rectTs lo hi o d).map (· / k)) ∧
+    (∀ p1 p2 radius, ScaleCov V3.scale Hit.scaleT (cylCollider sqrtF eps p1 p2 radius)) ∧
+    (∀ p1 p2 radius, ScaleCov V3.scale Hit.scaleT (capsuleCollider sqrtF p1 p2 radius)) :=
+  ⟨fun lo hi => rectCollider_scaleCov lo hi,
+   fun lo hi o d _ hk => rectTs_scale hk lo hi o d,
+   fun p1 p2 radius => cylCollider_scaleCov hs eps p1 p2 radius,
+   fun p1 p2 radius => capsuleCollider_scaleCov hs p1 p2 radius⟩
+
+/-- the unit box entered at 1 and left at 2 with direction `(1,0,0)`: at `2^-20` and `2^-19` with `(2^20,0,0)` -/
+example :
+    rectTs (⟨0, 0, 0⟩ : V3 ℚ) ⟨1, 1, 1⟩ ⟨-1, 1/2, 1/2⟩ ⟨1048576, 0, 0⟩ = [1/1048576, 2/1048576] := by
+  decide +kernel
+
+/-- a ray through the unit sphere with directions `(0,0,-1)` and `(0,0,-2^-20)`, and through the unit right triangle
+with `(0,0,-2)` and `(0,0,-2^21)`: same points, parameters divided by the factor -/
+example :
+    (sphereHits (fun x : ℚ => if x = 4 then 2 else if x = 4/1099511627776 then 2/1048576 else x)
+        ⟨0, 0, 0⟩ 1 ⟨0, 0, 2⟩ ⟨0, 0, -1⟩).map Hit.t = [1, 3] ∧
+    (sphereHits (fun x : ℚ => if x = 4 then 2 else if x = 4/1099511627776 then 2/1048576 else x)
+        ⟨0, 0, 0⟩ 1 ⟨0, 0, 2⟩ ⟨0, 0, -1/1048576⟩).map Hit.t = [1048576, 3145728] ∧
+    (triHits (fun x : ℚ => x) (1/100000000) ⟨0, 0, 0⟩ ⟨1, 0, 0⟩ ⟨0, 1, 0⟩ ⟨1/4, 1/4, 1⟩ ⟨0, 0, -2097152⟩).map Hit.t =
+      [1/2097152] := by
+  refine ⟨?_, ?_, ?_⟩ <;> decide +kernel
 
 /-! ## non-vacuity -/
 
